@@ -124,9 +124,18 @@ func (*Eval) fixOpPop(bytecode *Bytecode) {
 	var prevOp byte
 	var lastOp byte
 	var fixPos int
+	// positions control can jump to: a return that is a jump target is also
+	// reached with nothing left on the stack by the last statement.
+	targets := make(map[int]struct{})
 
 	IterateInstructions(bytecode.Main.Instructions,
 		func(pos int, opcode Opcode, operands []int, offset int) bool {
+			switch opcode {
+			case OpJump, OpJumpFalsy, OpAndJump, OpOrJump, OpSetupTry:
+				for _, target := range operands {
+					targets[target] = struct{}{}
+				}
+			}
 			if prevOp == 0 {
 				prevOp = opcode
 			} else {
@@ -141,6 +150,9 @@ func (*Eval) fixOpPop(bytecode *Bytecode) {
 		},
 	)
 
+	if _, ok := targets[fixPos+1]; ok {
+		return
+	}
 	if fixPos > 0 {
 		bytecode.Main.Instructions[fixPos] = OpNoOp // overwrite OpPop
 		bytecode.Main.Instructions[fixPos+2] = 1    // set number of return to 1
